@@ -21,7 +21,7 @@ have type definitions that work in IDE. It also makes it easier to deal with age
 having local types we can modify.
 """
 
-import logging
+from deep import logging
 
 # noinspection PyUnresolvedReferences
 # noinspection PyUnresolvedReferences
